@@ -550,7 +550,9 @@ class MarkdownNormalizer(Renderer):
         # Don't add prefix to empty lines to avoid trailing whitespace.
         # Use rstrip() to preserve structural prefixes like ">" for blockquotes.
         empty_line_prefix = self._second_prefix.rstrip()
-        for line in code_content.splitlines():
+        # Only CommonMark line endings separate the lines of the code: `str.splitlines()`
+        # would also break a line at a form feed, U+2028, NEL, etc. inside the code.
+        for line in re.split(r"\r\n|\n|\r", code_content) if code_content else []:
             if line:
                 lines.append(f"{self._second_prefix}{line}")
             else:
